@@ -49,7 +49,16 @@ def build_tools(ROOT, REPO, LEAN, GOENV, lean_targets):
                 b = ""
             if a != b:
                 changed.append(f)
-    info["generated_changed"] = changed
+    info["generated_changed"] = [f for f in changed if f.endswith(".lean")]
+    # staleness fingerprints of hand-modelled functions
+    changed_funcs = []
+    try:
+        a = dict(map(tuple, json.load(open(os.path.join(exp_dir, "fingerprints.json")))))
+        b = dict(map(tuple, json.load(open(os.path.join(gen_dir, "fingerprints.json")))))
+        changed_funcs = sorted(k for k in set(a) | set(b) if a.get(k) != b.get(k))
+    except (OSError, ValueError):
+        pass
+    info["changed_funcs"] = changed_funcs
     # lean
     rc, out = sh(["lake", "build"] + lean_targets + ["driver"], cwd=LEAN, timeout=3000)
     info["lake"] = (rc, out)
@@ -275,6 +284,7 @@ def check(ROOT, REPO, LEAN, GOENV, pid, prop, tier, seed):
         if forb:
             broken.append("forbidden tokens: " + "; ".join(forb[:10]))
     gen_changed = info.get("generated_changed", [])
+    stale = [f for f in info.get("changed_funcs", []) if any(f.startswith(pfx) for pfx in prop.get("fingerprints", []))]
     harness_ok = info.get("harness_build", (1, ""))[0] == 0
     # ---- correspondence
     issues = []
@@ -283,7 +293,7 @@ def check(ROOT, REPO, LEAN, GOENV, pid, prop, tier, seed):
         for sc in prop["scenarios"]:
             mod = scenarios.SCN[sc["scn"]]
             n = sc["n"][tier]
-            boost = 3 if (broken or gen_changed) else 1
+            boost = 3 if (broken or gen_changed or stale) else 1
             # corpus first
             corpus_dir = os.path.join(ROOT, "corpus")
             cases = run_harness(ROOT, GOENV, sc["scn"], seed, n * boost, sc.get("filter"), sc.get("extra"))
@@ -380,6 +390,7 @@ def check(ROOT, REPO, LEAN, GOENV, pid, prop, tier, seed):
             "histogram": stats["hist"],
             "traces_validated_against_impl": stats["evaluations"],
             "generated_changed": gen_changed,
+            "model_may_be_stale_for": stale,
             "broken_obligations": broken,
             "known_findings_reproduced": sorted(known_hits.keys()),
             "exhaustive": False,
